@@ -250,18 +250,32 @@ def run(ctx):
         return True
 
     def add_case(pop, tname, mkind, ids_mode="real", stale="fresh"):
-        obs = implementation(pop, ids_mode, stale)
-        case = ll([pl(nl(i), pl(ll(c, fl), zl(mk))) for i, (c, mk) in zip(obs["ids"], pop)])
-        exp = "Some {| o_front := %s; o_counter := %s; o_dominate := %s; o_fronts := %s |}" % (
-            ll(obs["front"], lambda v: optl(v, nl)), ll(obs["counter"], zl),
-            ll(obs["dominate"], lambda l: ll(l, nl)), ll(obs["fronts"], lambda l: ll(l, nl)))
+        inp = {"population_costs_signed": [list(c) + [mk] for c, mk in pop], "ids": ids_mode, "stale_features": stale}
+        try:
+            obs = implementation(pop, ids_mode, stale)
+        except Exception as e:      # the sorter must rank every population; a crash leaves everybody unranked
+            ctx.count(None, nontrivial=False)
+            ctx.oracle_failures.append({"what": "the sorter raised %r: no individual is ranked" % (e,), "input": inp,
+                                        "match": {"kind": "raised", "case": {"template": tname, "n": len(pop)}}})
+            return None
+        ok = oracle(pop, obs, {"template": tname, "n": len(pop)})
+        try:
+            case = ll([pl(nl(i), pl(ll(c, fl), zl(mk))) for i, (c, mk) in zip(obs["ids"], pop)])
+            exp = "Some {| o_front := %s; o_counter := %s; o_dominate := %s; o_fronts := %s |}" % (
+                ll(obs["front"], lambda v: optl(v, nl)), ll(obs["counter"], zl),
+                ll(obs["dominate"], lambda l: ll(l, nl)), ll(obs["fronts"], lambda l: ll(l, nl)))
+        except Exception as e:      # an observation the model's types cannot even express (e.g. a negative front number)
+            if ok:
+                ctx.oracle_failures.append({"what": "observation outside the model's range: %r" % (e,),
+                                            "input": dict(inp, observed=obs), "match": {"kind": "range"}})
+            ctx.count(None, nontrivial=False)
+            return obs
         m = {"template": tname, "markers": mkind, "ids": ids_mode, "stale_features": stale,
              "population": [{"id": i, "costs_signed": list(c) + [mk]} for i, (c, mk) in zip(obs["ids"], pop)],
              "observed": obs}
         cases.append(case)
         expected.append(exp)
         meta.append(m)
-        ok = oracle(pop, obs, {"template": tname, "n": len(pop)})
         n = len(pop)
         key = tuple((tuple(c), int(mk)) for c, mk in pop)
         ctx.count(key, nontrivial=n >= 2)
@@ -281,7 +295,7 @@ def run(ctx):
             stats["stale_features"] += 1
         if ids_mode != "real":
             stats["scrambled_ids"] += 1
-        if len(ctx.samples) < 4 and n >= 4 and max(obs["front"]) >= 2 and tname in ("grid", "layers", "duplicates"):
+        if ok and len(ctx.samples) < 4 and n >= 4 and max(obs["front"]) >= 2 and tname in ("grid", "layers", "duplicates"):
             ctx.sample(m)
         return obs
 
@@ -321,6 +335,8 @@ def run(ctx):
             obs = add_case(shuffled, tname, mkind,
                            "scrambled" if rng.random() < 0.25 else "real",
                            rng.choice(["fresh", "fresh", "presorted", "garbage"]))
+            if obs is None:
+                continue
             # "in every input order": the same member gets the same front number in every shuffle
             for k, fr in zip(order, obs["front"]):
                 stats["order_checks"] += 1
@@ -351,3 +367,39 @@ LEVEL_TEXT = ("Machine-checked Coq theorems over an executable model of Selector
 LEVEL_NOTE = ("Full statement proved (no partial fallback). Hypotheses: distinct ids, cost vectors of one length. Trusted: Coq kernel + "
               "vm_compute; FloatAxioms for the float instance; the hand-written model and the Python harness. Correspondence is "
               "sampled (generated + corpus cases), the theorems are unbounded.")
+
+
+def replay(ctx, data):
+    """./check C02 --replay f : re-executes the stored failing inputs on the implementation, on the model
+    and on the textbook definition, and prints the three labellings."""
+    import artap.operators as ops
+    from artap.individual import Individual
+    selector = ops.TournamentSelector([])
+    pops = [f["input"]["population_costs_signed"] for f in data.get("failing_inputs", []) if "population_costs_signed" in f.get("input", {})]
+    pops += [[x["costs_signed"] for x in m["case"]["population"]] for m in data.get("correspondence_mismatches", [])
+             if isinstance(m.get("case"), dict) and "population" in m["case"]]
+    bad = 0
+    for rows in pops[:5]:
+        pop = [(r[:-1], r[-1]) for r in rows]
+        inds = []
+        for c, mk in pop:
+            x = Individual([float(v) for v in c])
+            x.costs, x.costs_signed = list(c), list(c) + [mk]
+            inds.append(x)
+        try:
+            selector.fast_nondominated_sorting(inds)
+            observed = [x.features["front_number"] for x in inds]
+        except Exception as e:
+            observed = repr(e)
+        required, _ = tb_ranks(pop)
+        case = ll([pl(nl(i), pl(ll(c, fl), zl(mk))) for i, (c, mk) in enumerate(pop)])
+        model = ctx.coq_eval("c02_replay", HEADER, ["match c02_run %s with Some o => Some (o_front o) | None => None end" % case])[0]
+        print(json_line({"population_costs_signed": rows, "implementation": observed, "required": required, "model": model}))
+        bad += observed != required
+    print("C02 replay: %d of %d stored inputs still violate the property" % (bad, len(pops[:5])))
+    return 1 if bad else 0
+
+
+def json_line(d):
+    import json
+    return json.dumps(d, default=str)
